@@ -240,3 +240,33 @@ mod tests {
         }
     }
 }
+
+#[cfg(feature = "verif")]
+impl ConciseFreeResources {
+    /// Plain-data projection of the admission summary (verification hook).
+    pub(crate) fn verif_dump(&self) -> serde_json::Value {
+        use serde_json::json;
+        let states: Vec<serde_json::Value> = self
+            .resources
+            .iter()
+            .map(|s| {
+                let groups: Vec<serde_json::Value> = s
+                    .free
+                    .iter()
+                    .map(|g| {
+                        let mut fr: Vec<_> = g
+                            .fractions
+                            .iter()
+                            .filter(|(_, f)| **f > 0)
+                            .map(|(i, f)| json!({"i": i.as_num(), "f": f}))
+                            .collect();
+                        fr.sort_by_key(|x| x["i"].as_u64());
+                        json!({"units": g.units, "frac": fr})
+                    })
+                    .collect();
+                json!(groups)
+            })
+            .collect();
+        json!(states)
+    }
+}
